@@ -470,6 +470,186 @@ def suite_integer_data_near_dtype_max(ctx):
                          sample={"input": inp, "locations_averaging_2_or_more": averaged} if pattern == "near_top" else None)
 
 
+def _same_ma(a, b):
+    return a.shape == b.shape and np.array_equal(np.ma.getmaskarray(a), np.ma.getmaskarray(b)) and \
+        np.array_equal(np.ma.filled(np.ma.asarray(a).astype(float), np.nan), np.ma.filled(np.ma.asarray(b).astype(float), np.nan), equal_nan=True)
+
+
+def suite_masked_source_coordinates(ctx):
+    """Source geometries whose longitude / latitude arrays are numpy MASKED arrays (a geolocation quality flag: scattered pixels, whole scan lines, columns,
+    a block), with ordinary in-range numbers under the mask.  A location whose coordinate is masked is not a valid source location, so it is not among
+    "the neighbours in range": the weighted mean / count / standard deviation are those of (a) the same swath with these locations made invalid the plain way
+    (NaN / 1e30 / 181 degrees in an ordinary array), (b) for 1-D swaths the swath with these locations (and their data) removed - both compared exactly -
+    and (c), with reduce_data=False, the brute-force weighted mean over the k nearest unmasked valid sources within the radius (1e-6 relative), count = their number."""
+    import random
+    from pyresample import kd_tree
+    from pyresample.geometry import SwathDefinition
+    r = random.Random(f"c04-masked-source-coordinates-{ctx.seed}")
+    wf = _wfuncs(r)
+    n_pairs = 12 if ctx.quick else 80
+    for pi in range(n_pairs):
+        name, lon0, lat0 = r.choice(kc.PLACES)
+        span = r.choice([0.2, 1.0, 5.0])
+        res = span * 111000.0 / 12
+        n_r, n_c = r.randrange(2, 9), r.randrange(2, 10)
+        lon, lat = kc.swath(r, n_r, n_c, lon0, lat0, span, r.choice([0.0, 0.0, 0.1]))
+        pattern = r.choice(["scattered", "scattered", "scan-lines", "columns", "block"])
+
+        def draw_mask():
+            m = np.zeros((n_r, n_c), bool)
+            if pattern == "scattered":
+                f = r.choice([0.1, 0.25, 0.5])
+                m = np.array([[r.random() < f for _ in range(n_c)] for _ in range(n_r)])
+            elif pattern == "scan-lines":
+                m[r.sample(range(n_r), r.randrange(1, max(2, n_r // 2 + 1)))] = True
+            elif pattern == "columns":
+                m[:, r.sample(range(n_c), r.randrange(1, max(2, n_c // 2 + 1)))] = True
+            else:
+                a, b = r.randrange(n_r), r.randrange(n_c)
+                m[a: a + r.randrange(1, n_r + 1), b: b + r.randrange(1, n_c + 1)] = True
+            return m
+        which = r.choice(["both", "both", "lons-only", "lats-only", "different"])
+        m_lon = draw_mask()
+        m_lat = m_lon if which == "both" else draw_mask()
+        if which == "lons-only":
+            m_lat = np.zeros_like(m_lon)
+        elif which == "lats-only":
+            m_lon, m_lat = np.zeros_like(m_lon), m_lon
+        excluded = m_lon | m_lat
+        ok = kc.valid(lon, lat)
+        if not excluded.any() or int((ok & ~excluded).sum()) < 2:
+            ctx.count("masked_src_coords.redrawn")
+            continue
+        under = r.choice(["own-coordinates", "own-coordinates", "other-in-range-numbers"])
+        raw_lon, raw_lat = lon.copy(), lat.copy()
+        if under == "other-in-range-numbers":
+            for i, j in zip(*np.nonzero(excluded)):
+                raw_lon[i, j] = max(-180.0, min(180.0, lon0 + r.uniform(-span, span) / 2))
+                raw_lat[i, j] = max(-90.0, min(90.0, lat0 + r.uniform(-span, span) / 2))
+        one_d = r.random() < 0.35
+        shape = (n_r * n_c,) if one_d else (n_r, n_c)
+        raw_lon, raw_lat, m_lon, m_lat, excluded = (v.reshape(shape) for v in (raw_lon, raw_lat, m_lon, m_lat, excluded))
+        hard = r.random() < 0.3
+        src = SwathDefinition(np.ma.array(raw_lon.copy(), mask=m_lon.copy(), hard_mask=hard), np.ma.array(raw_lat.copy(), mask=m_lat.copy(), hard_mask=hard))
+        # (a) the same locations made invalid the plain way, in ordinary arrays
+        inv_value = r.choice([float("nan"), 1e30, 181.0])
+        eq_lon = np.where(excluded, inv_value, raw_lon)
+        eq_lat = np.where(excluded, 95.0 if inv_value == 181.0 else inv_value, raw_lat)
+        src_invalid = SwathDefinition(eq_lon, eq_lat)
+        if r.random() < 0.5:
+            tgt, tkind = kc.area_at(r, lon0 + r.uniform(-span, span) / 4, lat0 + r.uniform(-span, span) / 4, r.randrange(2, 8), r.randrange(2, 8), res * r.choice([0.5, 1, 2]))
+            tdesc = f"area[{tkind} {tgt.height}x{tgt.width}]"
+        else:
+            t_r, t_c = r.randrange(1, 7), r.randrange(2, 8)
+            tlon, tlat = kc.swath(r, t_r, t_c, lon0 + r.uniform(-span, span) / 4, lat0 + r.uniform(-span, span) / 4, span * r.choice([0.5, 1.0]))
+            tgt, tdesc = SwathDefinition(tlon, tlat), f"swath[{t_r}x{t_c}]"
+        radius = r.choice([res, res * 3, res * 20])
+        k = r.choice([2, 3, 4, 8])
+        n_src = raw_lon.size
+        nch = r.choice([0, 0, 2])
+        ids = np.arange(n_src, dtype=float)
+        vals = (ids * 7 % 23) - 5.0 if not nch else np.stack([(ids * 7 % 23) - 5.0, (ids % 5) * 1.5 + 100.0], axis=-1)
+        data = vals.reshape(shape + ((nch,) if nch else ()))
+        tlo, tla = kc.lonlats(tgt)
+        d_all, sv, tv = kc.dist_matrix(raw_lon.ravel(), raw_lat.ravel(), tlo.ravel(), tla.ravel())
+        n_tgt = d_all.shape[0]
+        d = d_all.copy()
+        d[:, excluded.ravel()] = np.inf
+        order = np.argsort(d, axis=1, kind="stable")
+        # would a masked location be among the k nearest in range of some target if its coordinates counted?
+        order_all = np.argsort(d_all, axis=1, kind="stable")[:, :k]
+        sensitive = bool((excluded.ravel()[order_all] & (np.take_along_axis(d_all, order_all, axis=1) <= radius)).any())
+        ctx.count("masked_src_coords.pattern." + pattern)
+        ctx.count("masked_src_coords.arrays." + which)
+        ctx.count("masked_src_coords.sensitive" if sensitive else "masked_src_coords.insensitive")
+        geo = {"source_shape": list(shape), "masked_lons": [bool(v) for v in m_lon.ravel()], "masked_lats": [bool(v) for v in m_lat.ravel()],
+               "lons_data_under_and_outside_the_mask": [None if not np.isfinite(v) else float(v) for v in raw_lon.ravel()],
+               "lats_data_under_and_outside_the_mask": [None if not np.isfinite(v) else float(v) for v in raw_lat.ravel()], "target": kc.describe(tgt)}
+        for typ in ("gauss", "custom"):
+            if typ == "gauss":
+                sig = [float(radius) * r.choice([0.3, 1.0, 3.0]) for _ in range(max(nch, 1))]
+                fnames = [f"gauss(sigma={s_:.6g})" for s_ in sig]
+                funcs = [(lambda dd, s_=s_: np.exp(-dd ** 2 / s_ ** 2)) for s_ in sig]
+            else:
+                fnames = [r.choice(["soft", "lin", "step"]) for _ in range(max(nch, 1))]
+                funcs = [wf[f] for f in fnames]
+            for reduce_data in (False, True):
+                inp = {"pair": f"{name}: masked-coordinate swath{list(shape)} -> {tdesc}", "n_src": int(n_src), "n_masked_locations": int(excluded.sum()), "mask_pattern": pattern,
+                       "masked_arrays": which, "hard_mask": hard, "under_the_mask": under, "radius": float(radius), "k": int(k), "channels": nch, "type": typ, "weight_funcs": fnames,
+                       "reduce_data": reduce_data, "fill_value": None, "with_uncert": True}
+                site = "kd_tree.resample_" + typ
+
+                def call(source, dat):
+                    with warnings.catch_warnings(), np.errstate(all="ignore"):
+                        warnings.simplefilter("ignore")
+                        if typ == "gauss":
+                            return kd_tree.resample_gauss(source, dat, tgt, radius, sig if nch else sig[0], neighbours=k, epsilon=0, fill_value=None,
+                                                          reduce_data=reduce_data, segments=1, with_uncert=True)
+                        return kd_tree.resample_custom(source, dat, tgt, radius, funcs if nch else funcs[0], neighbours=k, epsilon=0, fill_value=None,
+                                                       reduce_data=reduce_data, segments=1, with_uncert=True)
+                try:
+                    res, std, cnt = call(src, data)
+                except Exception as e:  # noqa
+                    ctx.fail(site, f"source swath with masked coordinate arrays: raised {type(e).__name__}: {str(e)[:150]}", {**inp, **geo}, tags={"cause": "raises"}, size=n_src + n_tgt)
+                    continue
+                ctx.case("masked_src_coords", (pi, name, pattern, which, under, one_d, typ, reduce_data, k, nch, float(radius), float(raw_lon.ravel()[0])), nontrivial=sensitive,
+                         sample={"input": inp} if sensitive and typ == "gauss" and not reduce_data else None)
+                refs = [(f"the same swath with these locations invalid in plain arrays ({inv_value})", src_invalid, data)]
+                if one_d:
+                    keep = ~excluded
+                    refs.append(("the swath with these locations and their data removed", SwathDefinition(raw_lon[keep], raw_lat[keep]), data[keep]))
+                failed = False
+                for rname, rsrc, rdata in refs:
+                    res2, std2, cnt2 = call(rsrc, rdata)
+                    diff = [nm for nm, a, b in (("weighted mean", res, res2), ("standard deviation", std, std2), ("count", cnt, cnt2)) if not _same_ma(a, b)]
+                    if diff:
+                        a_, b_ = np.ma.filled(np.ma.asarray(res).astype(float), np.nan).reshape(n_tgt, -1), np.ma.filled(np.ma.asarray(res2).astype(float), np.nan).reshape(n_tgt, -1)
+                        rows = np.nonzero(~((a_ == b_) | (np.isnan(a_) & np.isnan(b_))).all(axis=1))[0]
+                        obs = {"differing": diff, "n_target_locations_with_another_mean": int(rows.size)}
+                        if rows.size:
+                            j = int(rows[0])
+                            obs["first"] = {"target_index": j, "got": a_[j].tolist(), "reference": b_[j].tolist(),
+                                            "count_got": np.ma.getdata(cnt).reshape(n_tgt, -1)[j].tolist(), "count_reference": np.ma.getdata(cnt2).reshape(n_tgt, -1)[j].tolist()}
+                        ctx.fail(site, f"{int(excluded.sum())} of {n_src} source locations have a masked longitude / latitude ({pattern}, {which}; {under} under the mask): "
+                                 f"{', '.join(diff)} differ from {rname}", {**inp, **geo}, obs, tags={"cause": "masked-source-coordinates", "reference": rname.split(" (")[0]}, size=n_src + n_tgt)
+                        failed = True
+                        break
+                if failed or reduce_data:
+                    continue        # (what the reduction of the source to the target's surroundings may drop is another property's: known finding F7 of C03)
+                # (c) brute force over the unmasked valid locations
+                Rv = np.ma.filled(np.ma.asarray(res).astype(float), np.nan).reshape(n_tgt, max(nch, 1))
+                Cv = np.ma.getdata(cnt).reshape(n_tgt, max(nch, 1))
+                D = vals.reshape(n_src, max(nch, 1))
+                for j in np.flatnonzero(tv):
+                    near = order[j][:k + 1]
+                    within = [s_ for s_ in near if d[j, s_] <= radius]
+                    tie = len(within) > k and abs(d[j, within[k]] - d[j, within[k - 1]]) <= 1e-9 * max(1.0, d[j, within[k - 1]])
+                    nearthr = any(abs(d[j, s_] - radius) <= 1e-9 * max(1.0, radius) for s_ in near if np.isfinite(d[j, s_]))
+                    if tie or nearthr:
+                        continue
+                    contrib = within[:k]
+                    bad = None
+                    for c in range(max(nch, 1)):
+                        wb = np.asarray(funcs[c](d[j, contrib]), float) * np.ones(len(contrib)) if contrib else np.array([])
+                        norm = float(wb.sum()) if contrib else 0.0
+                        if not norm > 0:
+                            if not math.isnan(Rv[j, c]):
+                                bad = ("location without any unmasked neighbour of positive weight in range is not masked", {"got": float(Rv[j, c])})
+                        else:
+                            want = float((wb * D[contrib, c]).sum() / norm)
+                            if not abs(Rv[j, c] - want) <= 1e-6 * max(1.0, abs(want)):
+                                bad = ("value is not sum(w*x)/sum(w) over the nearest unmasked valid source locations in range",
+                                       {"got": float(Rv[j, c]), "expected": want, "neighbours": [int(v) for v in contrib], "distances": [float(v) for v in d[j, contrib]]})
+                        if bad is None and int(Cv[j, c]) != len(contrib):
+                            bad = ("count differs from the number of unmasked valid neighbours in range", {"count": int(Cv[j, c]), "neighbours": len(contrib)})
+                        if bad:
+                            ctx.fail(site, "source swath with masked coordinate arrays: " + bad[0], {**inp, **geo, "target_index": int(j), "channel": c}, bad[1],
+                                     tags={"cause": "masked-source-coordinates", "reference": "brute force"}, size=n_src + n_tgt)
+                            break
+                    if bad:
+                        break
+
+
 def run(ctx):
     suite_no_neighbour_locations(ctx)
     n = 40 if ctx.quick else 400
@@ -481,3 +661,4 @@ def run(ctx):
         check(ctx, src, tgt, radius, desc)
         ctx.count("pairs")
     suite_integer_data_near_dtype_max(ctx)
+    suite_masked_source_coordinates(ctx)
